@@ -366,7 +366,7 @@ class LocalStreamFlowPath(
     async def glob(
         self, pattern: str, *, case_sensitive: bool | None = None
     ) -> AsyncIterator[LocalStreamFlowPath]:
-        for path in glob.glob(str(self / pattern)):
+        for path in glob.glob(os.path.join(glob.escape(str(self)), pattern)):
             yield self.with_segments(path)
 
     async def is_dir(self) -> bool:
@@ -677,7 +677,7 @@ class RemoteStreamFlowPath(
                 location=self.location, command=command, capture_output=True
             )
             _check_status(command, self.location, result, status)
-            for path in result.split():
+            for path in result.splitlines():
                 yield self.with_segments(path)
 
     async def is_dir(self) -> bool:
